@@ -149,15 +149,21 @@ class Baton(object):
             self.current = nxt
             self.sems[nxt].release()
 
-    def run(self, bodies):
+    def run(self, bodies, crew=None):
+        """Run the bodies on fresh threads, or on the persistent threads of
+        `crew` (same semantics; avoids creating OS threads per execution)."""
         if len(bodies) != self.n:
             raise ScheduleError('need %d bodies' % self.n)
-        threads = [threading.Thread(
-            target=self._main, args=(i, bodies[i]), name='baton-%d' % i)
-            for i in range(self.n)]
-        for t in threads:
-            t.daemon = True
-            t.start()
+        jobs = [(lambda i=i: self._main(i, bodies[i])) for i in range(self.n)]
+        threads = []
+        if crew is not None:
+            crew.start(jobs)
+        else:
+            threads = [threading.Thread(target=jobs[i], name='baton-%d' % i)
+                       for i in range(self.n)]
+            for t in threads:
+                t.daemon = True
+                t.start()
         try:
             nxt = self._decide(None)
         except ScheduleError as e:
@@ -171,6 +177,10 @@ class Baton(object):
                 '(deadlock)' % self.timeout))
         if self.error is not None:
             raise self.error
+        if crew is not None:
+            if not crew.wait(self.timeout):
+                raise ScheduleError(self.diagnostic(
+                    'a crew thread did not return'))
         for t in threads:
             t.join(self.timeout)
             if t.is_alive():
@@ -193,6 +203,55 @@ class Baton(object):
         return '\n'.join(lines)
 
 
+class Crew(object):
+    """n persistent real threads that execute one job each per `start`.
+    They live as long as the (worker) process: never fork afterwards."""
+
+    def __init__(self, n):
+        self.n = n
+        self.jobs = [None] * n
+        self.go = [threading.Semaphore(0) for _ in range(n)]
+        self.idle = [threading.Semaphore(0) for _ in range(n)]
+        self.threads = [threading.Thread(
+            target=self._loop, args=(i,), name='crew-%d' % i)
+            for i in range(n)]
+        for t in self.threads:
+            t.daemon = True
+            t.start()
+
+    def _loop(self, i):
+        while True:
+            self.go[i].acquire()
+            job = self.jobs[i]
+            if job is None:
+                return
+            try:
+                job()
+            finally:
+                self.jobs[i] = None
+                self.idle[i].release()
+
+    def start(self, jobs):
+        if len(jobs) != self.n:
+            raise ScheduleError('crew of %d got %d jobs' % (self.n, len(jobs)))
+        for i, j in enumerate(jobs):
+            self.jobs[i] = j
+            self.go[i].release()
+
+    def wait(self, timeout):
+        ok = True
+        for i in range(self.n):
+            ok = self.idle[i].acquire(timeout=timeout) and ok
+        return ok
+
+    def close(self):
+        for i in range(self.n):
+            self.jobs[i] = None
+            self.go[i].release()
+        for t in self.threads:
+            t.join(5.0)
+
+
 # ---------------------------------------------------------------------
 # exhaustive enumeration of schedules
 # ---------------------------------------------------------------------
@@ -210,7 +269,9 @@ class PrefixChooser(object):
                     self.expected[step] != enabled:
                 raise ScheduleError(
                     'divergence while replaying prefix %r: decision %d had '
-                    'enabled set %r, now %r' % (
+                    'enabled set %r, now %r (the code under test keeps state '
+                    'from one execution to the next, or the harness is not '
+                    'deterministic)' % (
                         self.prefix, step, self.expected[step], enabled))
             return self.prefix[step]
         return enabled[0]
@@ -288,7 +349,7 @@ class LineCounter(object):
         return self.local
 
 
-def one_preemption(bodies, first, k, is_target, timeout=60.0):
+def one_preemption(bodies, first, k, is_target, timeout=60.0, crew=None):
     """
     Thread `first` starts; just before its k-th traced line (k None: never)
     the baton goes to the other threads, which run to completion in index
@@ -308,5 +369,5 @@ def one_preemption(bodies, first, k, is_target, timeout=60.0):
         'line %s:%d' % (frame.f_code.co_filename.rsplit('/', 1)[-1],
                         frame.f_lineno)))
     b.tracers[first] = lc
-    results = b.run(bodies)
+    results = b.run(bodies, crew)
     return results, lc.n, lc.hit, list(b.events)
